@@ -22,26 +22,29 @@
 -/
 namespace Dx.Names
 
+/- `L` is the type of literals (normalized non-expression operands), `τ` the type of tokens; the
+   theorems hold for every choice, the driver and the non-vacuity examples use the free instance below. -/
+
 mutual
 /-- an expression: class number and operand list -/
-inductive E where
-  | node (cls : Nat) (ops : List Operand)
+inductive E (L : Type) where
+  | node (cls : Nat) (ops : List (Operand L))
 /-- an operand: a literal (identified by its normalized form), a nested expression, or a
     list/tuple/dict operand whose items may again be expressions (`Fused.exprs`, by-lists, …) -/
-inductive Operand where
-  | lit (t : Nat)
-  | sub (e : E)
-  | seq (l : List Operand)
+inductive Operand (L : Type) where
+  | lit (t : L)
+  | sub (e : E L)
+  | seq (l : List (Operand L))
 end
 
 /-- what `normalize_token` hands to md5 for one operand -/
-inductive Canon where
-  | lit (t : Nat)
-  | seq (l : List Canon)
+inductive Canon (L : Type) where
+  | lit (t : L)
+  | seq (l : List (Canon L))
 
-structure Name where
+structure Name (τ : Type) where
   pfx : Nat
-  tok : Nat
+  tok : τ
 deriving DecidableEq, Repr
 
 /-- The shape of one class's `_name` (one row of Generated/NameRules.lean). -/
@@ -67,42 +70,44 @@ def Rule.default (p nparams : Nat) (variadic : Bool := false) : Rule :=
   { pfxConst := some p, clsInTok := false, extra := false, dropped := [], nparams := nparams, variadic := variadic }
 
 /-- the parameters of the naming scheme -/
-structure Scheme where
+structure Scheme (L τ : Type) where
   rules : Nat → Rule
   /-- md5 of the normalized list -/
-  token : List Canon → Nat
-  /-- the literal under which a nested expression's name is tokenized -/
-  nameCode : Name → Nat
+  token : List (Canon L) → τ
+  /-- the literal (a string) under which a nested expression's name is tokenized -/
+  nameCode : Name τ → L
+  /-- the literal (a string) `funcname(type(self))` of a class -/
+  clsCode : Nat → L
   /-- prefix of a class whose prefix is computed from operand values -/
-  dynPfx : Nat → List Canon → Nat
+  dynPfx : Nat → List (Canon L) → Nat
   /-- the non-operand token input (dataset checksum) -/
-  extraTok : Nat → List Canon → Canon
+  extraTok : Nat → List (Canon L) → Canon L
 
 /-- operands at positions not in `d` (positions counted from `i`) -/
-def keepIdx (d : List Nat) : Nat → List Canon → List Canon
+def keepIdx {L : Type} (d : List Nat) : Nat → List (Canon L) → List (Canon L)
   | _, [] => []
   | i, x :: xs => if d.contains i then keepIdx d (i + 1) xs else x :: keepIdx d (i + 1) xs
 
 /-- the list handed to `_tokenize_deterministic` -/
-def tokenInput (r : Rule) (c : Nat) (extraTok : Canon) (cs : List Canon) : List Canon :=
+def tokenInput {L : Type} (r : Rule) (c : L) (extraTok : Canon L) (cs : List (Canon L)) : List (Canon L) :=
   (if r.clsInTok then [Canon.lit c] else []) ++ (if r.extra then [extraTok] else []) ++ keepIdx r.dropped 0 cs
 
-def prefixOf (S : Scheme) (c : Nat) (cs : List Canon) : Nat :=
+def prefixOf {L τ : Type} (S : Scheme L τ) (c : Nat) (cs : List (Canon L)) : Nat :=
   match (S.rules c).pfxConst with
   | some p => p
   | none => S.dynPfx c cs
 
 mutual
-def nameOf (S : Scheme) : E → Name
+def nameOf {L τ : Type} (S : Scheme L τ) : E L → Name τ
   | .node c ops =>
       { pfx := prefixOf S c (canonOps S ops),
-        tok := S.token (tokenInput (S.rules c) c (S.extraTok c (canonOps S ops)) (canonOps S ops)) }
+        tok := S.token (tokenInput (S.rules c) (S.clsCode c) (S.extraTok c (canonOps S ops)) (canonOps S ops)) }
 /-- `normalize_token(operand)`: literals as they are, expressions as their name -/
-def canon (S : Scheme) : Operand → Canon
+def canon {L τ : Type} (S : Scheme L τ) : Operand L → Canon L
   | .lit t => .lit t
   | .sub e => .lit (S.nameCode (nameOf S e))
   | .seq l => .seq (canonOps S l)
-def canonOps (S : Scheme) : List Operand → List Canon
+def canonOps {L τ : Type} (S : Scheme L τ) : List (Operand L) → List (Canon L)
   | [] => []
   | o :: os => canon S o :: canonOps S os
 end
@@ -141,19 +146,19 @@ def separated (r₁ r₂ : Rule) : Bool :=
 mutual
 /-- every node's class is `good`, has an operand count its class can have, and no literal operand
     is (the code of) a name -/
-def AdmE (S : Scheme) (good : Nat → Prop) : E → Prop
+def AdmE {L τ : Type} (S : Scheme L τ) (good : Nat → Prop) : E L → Prop
   | .node c ops => good c ∧ arityOK (S.rules c) ops.length = true ∧ AdmOps S good ops
-def AdmO (S : Scheme) (good : Nat → Prop) : Operand → Prop
+def AdmO {L τ : Type} (S : Scheme L τ) (good : Nat → Prop) : Operand L → Prop
   | .lit t => ∀ n, t ≠ S.nameCode n
   | .sub e => AdmE S good e
   | .seq l => AdmOps S good l
-def AdmOps (S : Scheme) (good : Nat → Prop) : List Operand → Prop
+def AdmOps {L τ : Type} (S : Scheme L τ) (good : Nat → Prop) : List (Operand L) → Prop
   | [] => True
   | o :: os => AdmO S good o ∧ AdmOps S good os
 end
 
 /-- `NameRuleComplete` for a set of classes: each tokenizes all its operands and any two are separated -/
-def NameRuleComplete (S : Scheme) (good : Nat → Prop) : Prop :=
+def NameRuleComplete {L τ : Type} (S : Scheme L τ) (good : Nat → Prop) : Prop :=
   (∀ c, good c → ownComplete (S.rules c) = true) ∧
   (∀ c₁ c₂, good c₁ → good c₂ → c₁ ≠ c₂ → separated (S.rules c₁) (S.rules c₂) = true)
 
@@ -170,15 +175,28 @@ deriving Repr
 
 /-! executable size of trees (used by the driver only) -/
 mutual
-def sizeE : E → Nat
+def sizeE {L : Type} : E L → Nat
   | .node _ ops => 1 + sizeOps ops
-def sizeO : Operand → Nat
+def sizeO {L : Type} : Operand L → Nat
   | .lit _ => 1
   | .sub e => sizeE e
   | .seq l => 1 + sizeOps l
-def sizeOps : List Operand → Nat
+def sizeOps {L : Type} : List (Operand L) → Nat
   | [] => 0
   | o :: os => sizeO o + sizeOps os
 end
+
+/-! ### the free instance: tokens are the token inputs themselves, a name read as a literal is a literal of its own kind -/
+
+inductive FreeLit where
+  | base (n : Nat)                                   -- an ordinary literal
+  | cls (c : Nat)                                    -- a class name
+  | name (pfx : Nat) (tok : List (Canon FreeLit))    -- the name of an expression
+
+abbrev FreeTok := List (Canon FreeLit)
+
+def freeScheme (rules : Nat → Rule) : Scheme FreeLit FreeTok :=
+  { rules := rules, token := id, nameCode := fun n => .name n.pfx n.tok, clsCode := .cls,
+    dynPfx := fun _ _ => 0, extraTok := fun _ _ => .seq [] }
 
 end Dx.Names
